@@ -197,15 +197,15 @@ Ltac lnorm := repeat (rewrite ?rev_append_rev, ?rev_app_distr, ?rev_involutive, 
 
 (* ------------------------------------------------------------------ main invariant:
    enough fuel => a result, and substituting the literals back gives the consumed text *)
-Lemma run_ok : forall fuel fixp m rest s pre,
+Lemma run_ok : forall fuel fixp fixe m rest s pre,
   length rest < fuel -> inv s pre ->
-  exists items lits, run fuel fixp m rest s = Done items lits
+  exists items lits, run fuel fixp fixe m rest s = Done items lits
                      /\ subst lits items = Some (pre ++ pend m ++ rest).
 Proof.
-  induction fuel as [|fuel IH]; intros fixp m rest s pre Hlen Hinv; [lia|].
+  induction fuel as [|fuel IH]; intros fixp fixe m rest s pre Hlen Hinv; [lia|].
   assert (STEP : forall m' rest' s' pre', length rest' < length rest -> inv s' pre' ->
             pre' ++ pend m' ++ rest' = pre ++ pend m ++ rest ->
-            exists items lits, run fuel fixp m' rest' s' = Done items lits
+            exists items lits, run fuel fixp fixe m' rest' s' = Done items lits
                                /\ subst lits items = Some (pre ++ pend m ++ rest)).
   { intros m' rest' s' pre' L I E. rewrite <- E. apply IH; [lia | exact I]. }
   destruct m as [c | q triple isf p rpend]; cbn [run].
@@ -230,7 +230,7 @@ Proof.
       assert (EQ : forall m', pend m' = [] -> (pre ++ sk ++ [b]) ++ pend m' ++ rest' = pre ++ pend (MCode c) ++ rest).
       { intros m' ->. rewrite E. lnorm. reflexivity. }
       assert (FIN : forall m', pend m' = [] -> exists items lits,
-                run fuel fixp m' rest' (emit (sk ++ [b]) s) = Done items lits
+                run fuel fixp fixe m' rest' (emit (sk ++ [b]) s) = Done items lits
                 /\ subst lits items = Some (pre ++ pend (MCode c) ++ rest)).
       { intros m' Hm. eapply (STEP m'); [exact L | exact I2 | apply EQ; exact Hm]. }
       destruct c as [|q triple p|p].
@@ -243,7 +243,7 @@ Proof.
       match goal with |- context [if ?b then _ else _] => destruct b end.
       * eapply (STEP (MCode c)); [exact L | apply inv_emit; exact Hinv | ].
         rewrite E. lnorm. reflexivity.
-      * match goal with |- context [run fuel fixp (MStr ?q ?t ?i ?c (rev (skipn ?k ?r))) rest' (emit (sk ++ qpre ++ firstn ?k ?r) s)] =>
+      * match goal with |- context [run fuel fixp fixe (MStr ?q ?t ?i ?c (rev (skipn ?k ?r))) rest' (emit (sk ++ qpre ++ firstn ?k ?r) s)] =>
           eapply (STEP (MStr q t i c (rev (skipn k r)))); [exact L | apply inv_emit; exact Hinv | ];
           rewrite E; simpl; rewrite rev_involutive; lnorm; rewrite (app_assoc (firstn k r)), firstn_skipn; reflexivity
         end.
@@ -291,19 +291,19 @@ Proof.
 Qed.
 
 (* termination (fuel S(length code) suffices, never Stuck) + losslessness on items *)
-Theorem strip_total_lossless fixp code :
-  exists items lits, strip fixp code = Done items lits /\ subst lits items = Some code.
+Theorem strip_total_lossless fixp fixe code :
+  exists items lits, strip fixp fixe code = Done items lits /\ subst lits items = Some code.
 Proof.
   unfold strip.
-  destruct (run_ok (S (length code)) fixp (MCode CTop) code init_state [] ltac:(lia)) as (items & lits & E & H).
+  destruct (run_ok (S (length code)) fixp fixe (MCode CTop) code init_state [] ltac:(lia)) as (items & lits & E & H).
   - split; reflexivity.
   - exists items, lits. split; [exact E | exact H].
 Qed.
 
-Corollary strip_lossless fixp code items lits :
-  strip fixp code = Done items lits -> subst lits items = Some code.
+Corollary strip_lossless fixp fixe code items lits :
+  strip fixp fixe code = Done items lits -> subst lits items = Some code.
 Proof.
-  intros H. destruct (strip_total_lossless fixp code) as (i & l & E & S). congruence.
+  intros H. destruct (strip_total_lossless fixp fixe code) as (i & l & E & S). congruence.
 Qed.
 
 (* ------------------------------------------------------------------ classification of characters *)
@@ -382,26 +382,26 @@ Proof.
   destruct (N.eqb_spec c c_dq); [right; assumption | discriminate].
 Qed.
 
-Lemma run_skip_code fuel fixp ctx c t s :
+Lemma run_skip_code fuel fixp fixe ctx c t s :
   try_at RxCode fixp (c :: t) = None ->
-  run (S fuel) fixp (MCode ctx) (c :: t) s = run (S fuel) fixp (MCode ctx) t (emit [c] s).
+  run (S fuel) fixp fixe (MCode ctx) (c :: t) s = run (S fuel) fixp fixe (MCode ctx) t (emit [c] s).
 Proof.
   intros T. cbn [run find]. rewrite T.
   destruct (find RxCode fixp t) as [[[sk tok] rest']|]; [|reflexivity].
   destruct tok; reflexivity.
 Qed.
 
-Lemma run_skip_str fuel fixp q tr p rp c t s :
+Lemma run_skip_str fuel fixp fixe q tr p rp c t s :
   is_quote c = false ->
   (N.eqb c c_bs = false \/ match_escape (c :: t) = None) ->
-  run (S fuel) fixp (MStr q tr false p rp) (c :: t) s = run (S fuel) fixp (MStr q tr false p (c :: rp)) t s.
+  run (S fuel) fixp fixe (MStr q tr false p rp) (c :: t) s = run (S fuel) fixp fixe (MStr q tr false p (c :: rp)) t s.
 Proof.
   intros Q B. cbn [run find].
   assert (TA : try_at RxStr false (c :: t) = match_quote false (c :: t) \/ try_at RxStr false (c :: t) = None).
   { unfold try_at. destruct (N.eqb c c_bs) eqn:E; [|left; reflexivity].
     destruct B as [B|B]; [discriminate | right; exact B]. }
   assert (SKIP : try_at RxStr false (c :: t) = None ->
-     run (S fuel) fixp (MStr q tr false p rp) (c :: t) s = run (S fuel) fixp (MStr q tr false p (c :: rp)) t s).
+     run (S fuel) fixp fixe (MStr q tr false p rp) (c :: t) s = run (S fuel) fixp fixe (MStr q tr false p (c :: rp)) t s).
   { intros T. cbn [run find]. rewrite T.
     destruct (find RxStr false t) as [[[sk tok] rest']|]; [|reflexivity].
     destruct tok; try reflexivity;
@@ -634,13 +634,13 @@ Ltac cfin := unfold pendc; cbn [pend app map];
   repeat (rewrite ?rev_append_rev, ?rev_app_distr, ?rev_involutive, ?app_nil_r, ?map_app, <- ?app_assoc; cbn [app map rev]);
   try reflexivity.
 
-Lemma sim : forall n fuel fixp m rest s pre rs cl,
+Lemma sim : forall n fuel fixp fixe m rest s pre rs cl,
   length rest <= n -> length rest < fuel -> invc s pre -> related rest m rs ->
   refc rs rest = Some cl ->
-  exists items lits, run fuel fixp m rest s = Done items lits
+  exists items lits, run fuel fixp fixe m rest s = Done items lits
                      /\ classify lits items = Some (pre ++ pendc m ++ cl).
 Proof.
-  induction n as [|n IH]; intros fuel fixp m rest s pre rs cl Hn Hf Hinv Hrel Href;
+  induction n as [|n IH]; intros fuel fixp fixe m rest s pre rs cl Hn Hf Hinv Hrel Href;
     (destruct fuel as [|fuel]; [lia|]);
     (destruct rest as [|c t];
      [ (* empty text *)
@@ -656,9 +656,9 @@ Proof.
   assert (STEPC : forall fuel2 m' rest' s' pre' rs' cl',
             length rest' <= n -> length rest' < fuel2 -> invc s' pre' -> related rest' m' rs' ->
             refc rs' rest' = Some cl' -> pre' ++ pendc m' ++ cl' = pre ++ pendc m ++ cl ->
-            exists items lits, run fuel2 fixp m' rest' s' = Done items lits
+            exists items lits, run fuel2 fixp fixe m' rest' s' = Done items lits
                                /\ classify lits items = Some (pre ++ pendc m ++ cl)).
-  { intros fuel2 m' rest' s' pre' rs' cl' A B C D E G. rewrite <- G. apply (IH fuel2 fixp m' rest' s' pre' rs' cl'); assumption. }
+  { intros fuel2 m' rest' s' pre' rs' cl' A B C D E G. rewrite <- G. apply (IH fuel2 fixp fixe m' rest' s' pre' rs' cl'); assumption. }
   destruct Hrel as [pf | q tr e rp Q I].
   - (* ---------------- code ---------------- *)
     destruct (N.eqb_spec c c_hash) as [->|Hh].
@@ -710,7 +710,7 @@ Proof.
       (* skipped run: j = 0 or 2 *)
       assert (SKIPQ : forall j, nq = 6 * k + j ->
                 refc (RCode 0) (repeat c j ++ r) = option_map (app (map kept (repeat c j))) (refc (RCode 0) r) ->
-                exists items lits, run fuel fixp (MCode CTop) r (emit qrun s) = Done items lits
+                exists items lits, run fuel fixp fixe (MCode CTop) r (emit qrun s) = Done items lits
                                    /\ classify lits items = Some (pre ++ pendc (MCode CTop) ++ cl)).
       { intros j EJ RJ. rewrite EJ, repeat_app, <- app_assoc, (ref_q6k _ _ _ Q), RJ, omap_app, <- map_app, <- repeat_app, <- EJ in Href.
         destruct (omap_some _ _ _ Href) as (cl' & R1 & ->).
@@ -721,7 +721,7 @@ Proof.
                 refc (RCode 0) (repeat c j ++ r) =
                   option_map (app (map kept (repeat c keepj) ++ map body (repeat c extra))) (refc (RStr c tr false) r) ->
                 exists items lits,
-                  run fuel fixp (MStr c tr false CTop (rev (skipn (nq - extra) qrun))) r
+                  run fuel fixp fixe (MStr c tr false CTop (rev (skipn (nq - extra) qrun))) r
                       (emit (firstn (nq - extra) qrun) s) = Done items lits
                   /\ classify lits items = Some (pre ++ pendc (MCode CTop) ++ cl)).
       { intros j keepj extra tr EJ EK RJ.
@@ -738,7 +738,7 @@ Proof.
           [lia | lia | apply invc_emit; exact Hinv | constructor; [exact Q | intros; discriminate] | exact R1 | ].
         unfold pendc. simpl. rewrite rev_involutive, <- !app_assoc. f_equal.
         replace (nq - extra) with (6 * k + keepj) by lia. rewrite repeat_app, !map_app, <- !app_assoc. reflexivity. }
-      destruct (nq mod 6) as [|[|[|[|[|[|j']]]]]] eqn:J; try lia; cbn [Nat.eqb orb negb Nat.sub nonempty].
+      destruct (nq mod 6) as [|[|[|[|[|[|j']]]]]] eqn:J; try lia; cbn [Nat.eqb orb negb Nat.sub nonempty andb].
       - apply (SKIPQ 0); [lia|]. simpl. rewrite omap_nil. reflexivity.
       - apply (OPENQ 1 1 0 false); [lia | lia |]. simpl. apply (ref_q1 _ _ Q HNE).
       - apply (SKIPQ 2); [lia|]. simpl. apply (ref_q2 _ _ Q HNE).
@@ -749,7 +749,7 @@ Proof.
     destruct (match_quote fixp (c :: t)) as [[tok r]|] eqn:MQ.
     { rewrite (mq_pre_ref_none _ _ _ _ _ _ Q Hh MQ) in Href. discriminate. }
     assert (T : try_at RxCode fixp (c :: t) = None) by (unfold try_at; rewrite Hh, B; exact MQ).
-    rewrite (run_skip_code _ _ _ _ _ _ T).
+    rewrite (run_skip_code _ _ _ _ _ _ _ T).
     cbn [refc] in Href. rewrite Hh, Q, omap_cons in Href.
     destruct (omap_some _ _ _ Href) as (cl' & R1 & ->).
     eapply (STEPC (S fuel) (MCode CTop) t _ _ (RCode _) cl'); [lia | lia | apply invc_emit; exact Hinv | constructor | exact R1 | ].
@@ -759,9 +759,9 @@ Proof.
     assert (SKIPS : forall e', esc_inv e' t -> is_quote c = false ->
               (N.eqb c c_bs = false \/ match_escape (c :: t) = None) ->
               refc (RStr q tr e) (c :: t) = option_map (cons (body c)) (refc (RStr q tr e') t) ->
-              exists items lits, run (S fuel) fixp (MStr q tr false CTop rp) (c :: t) s = Done items lits
+              exists items lits, run (S fuel) fixp fixe (MStr q tr false CTop rp) (c :: t) s = Done items lits
                                  /\ classify lits items = Some (pre ++ pendc (MStr q tr false CTop rp) ++ cl)).
-    { intros e' I' Qc Bc RJ. rewrite (run_skip_str _ _ _ _ _ _ _ _ _ Qc Bc).
+    { intros e' I' Qc Bc RJ. rewrite (run_skip_str _ _ _ _ _ _ _ _ _ _ Qc Bc).
       rewrite RJ, omap_cons in Href. destruct (omap_some _ _ _ Href) as (cl' & R1 & ->).
       eapply (STEPC (S fuel) (MStr q tr false CTop (c :: rp)) t _ _ (RStr q tr e') cl');
         [lia | lia | exact Hinv | constructor; assumption | exact R1 | ].
@@ -874,12 +874,12 @@ Qed.
 
 (* completeness on the fragment without f-string prefixes: the characters kept in the stripped
    text / moved into literals are exactly the code / body characters of the reference tokenizer *)
-Theorem strip_complete_plain fixp code cl :
+Theorem strip_complete_plain fixp fixe code cl :
   ref_classify code = Some cl ->
-  exists items lits, strip fixp code = Done items lits /\ classify lits items = Some cl.
+  exists items lits, strip fixp fixe code = Done items lits /\ classify lits items = Some cl.
 Proof.
   intros H. unfold strip.
-  destruct (sim (length code) (S (length code)) fixp (MCode CTop) code init_state [] (RCode 0) cl)
+  destruct (sim (length code) (S (length code)) fixp fixe (MCode CTop) code init_state [] (RCode 0) cl)
     as (items & lits & E & C); try lia.
   - split; reflexivity.
   - constructor.
@@ -889,8 +889,8 @@ Qed.
 
 Corollary ref_classify_is_partition code cl : ref_classify code = Some cl -> map fst cl = code.
 Proof.
-  intros H. destruct (strip_complete_plain false code cl H) as (items & lits & E & C).
-  pose proof (strip_lossless _ _ _ _ E) as L. rewrite subst_classify, C in L. simpl in L. congruence.
+  intros H. destruct (strip_complete_plain false false code cl H) as (items & lits & E & C).
+  pose proof (strip_lossless _ _ _ _ _ E) as L. rewrite subst_classify, C in L. simpl in L. congruence.
 Qed.
 
 (* ------------------------------------------------------------------ the rendered text:
@@ -1046,12 +1046,12 @@ Proof.
         simpl in *. lia.
 Qed.
 
-Theorem strip_text_lossless fixp prefix code items lits :
+Theorem strip_text_lossless fixp fixe prefix code items lits :
   borderless prefix -> ~ occurs prefix code ->
-  strip fixp code = Done items lits ->
+  strip fixp fixe code = Done items lits ->
   subst_text prefix (dict prefix lits) 0 (render prefix items) = Some code.
 Proof.
-  intros BL NO H. pose proof (strip_lossless _ _ _ _ H) as L.
+  intros BL NO H. pose proof (strip_lossless _ _ _ _ _ H) as L.
   apply subst_text_render; [|exact L]. exact (safe_of_lossless _ _ _ _ BL NO L).
 Qed.
 
@@ -1080,12 +1080,12 @@ Proof.
   - cbn [app occursb]. destruct (strip_prefix p (x :: a ++ p ++ b)); [reflexivity | exact IH].
 Qed.
 
-Theorem strip_default_prefix_lossless fixp code items lits :
+Theorem strip_default_prefix_lossless fixp fixe code items lits :
   occursb default_prefix code = false ->
-  strip fixp code = Done items lits ->
+  strip fixp fixe code = Done items lits ->
   subst_text default_prefix (dict default_prefix lits) 0 (render default_prefix items) = Some code.
 Proof.
-  intros NO H. apply (strip_text_lossless fixp); [exact default_prefix_borderless | | exact H].
+  intros NO H. apply (strip_text_lossless fixp fixe); [exact default_prefix_borderless | | exact H].
   intros O. rewrite (occurs_occursb _ _ O) in NO. discriminate.
 Qed.
 
@@ -1099,21 +1099,31 @@ Definition w_spec_hash : list ch :=
 Definition w_spec_quote : list ch :=
   [97; 32; 61; 32; 102; 34; 123; 120; 58; 39; 94; 57; 125; 34; 10; 98; 32; 61; 32; 39; 108; 105; 116; 39; 10]%N.
 
-Definition kept_at (fixp : bool) (code : list ch) (i : nat) (c : ch) : Prop :=
-  exists items lits cl, strip fixp code = Done items lits /\ classify lits items = Some cl
+Definition kept_at (fixp fixe : bool) (code : list ch) (i : nat) (c : ch) : Prop :=
+  exists items lits cl, strip fixp fixe code = Done items lits /\ classify lits items = Some cl
                         /\ nth_error code i = Some c /\ nth_error cl i = Some (c, false).
-Definition removed_at (fixp : bool) (code : list ch) (i : nat) (c : ch) : Prop :=
-  exists items lits cl, strip fixp code = Done items lits /\ classify lits items = Some cl
+Definition removed_at (fixp fixe : bool) (code : list ch) (i : nat) (c : ch) : Prop :=
+  exists items lits cl, strip fixp fixe code = Done items lits /\ classify lits items = Some cl
                         /\ nth_error code i = Some c /\ nth_error cl i = Some (c, true).
 
-Lemma upper_f_prefix_refuted : kept_at false w_upper_f 6 107%N.
-Proof. eexists _, _, _. repeat split; vm_compute; reflexivity. Qed.
-
-Lemma upper_f_prefix_repaired : removed_at true w_upper_f 6 107%N.
-Proof. eexists _, _, _. repeat split; vm_compute; reflexivity. Qed.
-
-Lemma spec_hash_refuted : forall fixp, kept_at fixp w_spec_hash 11 97%N.
+Lemma upper_f_prefix_refuted : forall fixe, kept_at false fixe w_upper_f 6 107%N.
 Proof. intros []; eexists _, _, _; repeat split; vm_compute; reflexivity. Qed.
 
-Lemma spec_quote_refuted : forall fixp, kept_at fixp w_spec_quote 20 108%N.
+Lemma upper_f_prefix_repaired : forall fixe, removed_at true fixe w_upper_f 6 107%N.
+Proof. intros []; eexists _, _, _; repeat split; vm_compute; reflexivity. Qed.
+
+Lemma spec_hash_refuted : forall fixp fixe, kept_at fixp fixe w_spec_hash 11 97%N.
+Proof. intros [] []; eexists _, _, _; repeat split; vm_compute; reflexivity. Qed.
+
+Lemma spec_quote_refuted : forall fixp fixe, kept_at fixp fixe w_spec_quote 20 108%N.
+Proof. intros [] []; eexists _, _, _; repeat split; vm_compute; reflexivity. Qed.
+
+(* f''''''' {}' : an empty triple-quoted f-string followed by the plain literal ' {}' ; the brace
+   (index 9) is literal body, but the scanner carries the f flag over to the second literal *)
+Definition w_empty_triple : list ch := [102; 39; 39; 39; 39; 39; 39; 39; 32; 123; 125; 39]%N.
+
+Lemma empty_triple_flag_refuted : forall fixp, kept_at fixp false w_empty_triple 9 123%N.
+Proof. intros []; eexists _, _, _; repeat split; vm_compute; reflexivity. Qed.
+
+Lemma empty_triple_flag_repaired : forall fixp, removed_at fixp true w_empty_triple 9 123%N.
 Proof. intros []; eexists _, _, _; repeat split; vm_compute; reflexivity. Qed.
